@@ -1087,6 +1087,16 @@ func foundFlagDiscipline(w *World, o *Out, rule, pkgSuffix string) {
 			if bi < 0 || !strings.HasPrefix(s.Callee.Pkg, modPath) {
 				continue
 			}
+			// lookups only (GetX / FindX / LoadX ...): a (pointer, ok) pair of a parser is a different idiom
+			isLookup := false
+			for _, pfx := range []string{"Get", "Find", "Lookup", "Load", "get", "find", "lookup", "load"} {
+				if strings.HasPrefix(s.Callee.Name, pfx) {
+					isLookup = true
+				}
+			}
+			if !isLookup {
+				continue
+			}
 			var val, found *ssa.Extract
 			for _, r := range *call.Referrers() {
 				if ex, isEx := r.(*ssa.Extract); isEx {
